@@ -63,6 +63,16 @@ class Report(object):
     def unknown(self, rule, site, detail=""):
         self.obs.append(Ob(rule, site, "unknown", detail))
 
+    def guarded(self, fn, *args, **kwargs):
+        """Run one rule; an AnalysisError (vanished anchor, unrecognised shape) stops that rule only and is recorded as an undecided instance, so that a definite
+        violation found by another rule of the same check is still reported (a violation outranks an unknown)."""
+        from .loader import AnalysisError
+        try:
+            return fn(*args, **kwargs)
+        except AnalysisError as ex:
+            self.unknown(kwargs.get("rule") or getattr(fn, "__name__", "rule"), "analysis", str(ex))
+            return None
+
     def note(self, rule, site, detail=""):
         self.obs.append(Ob(rule, site, "note", detail, nontrivial=False))
 
